@@ -62,6 +62,11 @@ def exc_site(exc: BaseException, pkg: str = "odxtools") -> str:
         fn = fs.filename.replace("\\", "/")
         if f"/{pkg}/" in fn:
             rel = fn.split(f"/{pkg}/", 1)[1]
+            if rel == "exceptions.py" and site is not None:
+                # odxraise/odxassert/odxrequire: the site is their caller
+                if not site.endswith("[odxraise]"):
+                    site += "[odxraise]"
+                continue
             site = f"{rel}:{fs.name}"
     if site is None:
         frames = traceback.extract_tb(tb)
